@@ -8,7 +8,7 @@ SPEC = {
                  "(128-bit fit decision), a 6-line reference classifier, CPython float() and shlex.split",
     "rule": "integers: every n in [-70000,70000] rendered in 8 spellings (decimal, 0-led decimal, bare/0x hex in both cases, "
             "bare/0-prefixed octal, '-' forms) x {DEFAULT,HEX,DECIMAL,OCTAL} x {i8,u8,i16,u16,i32,u32,i64,u64} through named and "
-            "positional getters with and without default (exhaustive); windows +-(2^k+d) for k=7..66, 2^64-2^k+d, 10^k+d, "
+            "positional getters with and without default (exhaustive for every spelling under each format it is a documented spelling of; the same texts under the other formats, e.g. 0x1f as DECIMAL or 10 as HEX: every n in thorough, |n|<=1024 and every 8th n in quick); windows +-(2^k+d) for k=7..66, 2^64-2^k+d, 10^k+d, "
             "numerals beyond 2^64 and 2^128, seeded random magnitudes; ~70 non-numeral texts; absent arguments; "
             "token lists: all 111111 lists of <=5 tokens over {a,-,--,-x,-xy,--k,--k=v,--k=,--=v,\"\"} x every subset of read "
             "groups before assert_none_unused (exhaustive); get_multi over repeated numeric options; floats: literal grammar "
@@ -35,7 +35,7 @@ SPEC = {
         "cmdline:dq*", "cmdline:sq*", "cmdline:bs*", "cmdline:bare:*", "cmdline:*:tab:*",
     ],
     "exhaustive": {"quick": False, "thorough": False},
-    "exhaustive_note": "enumerated completely in both tiers: n in [-70000,70000] x 8 spellings x 4 formats x 8 integer types; all token "
+    "exhaustive_note": "enumerated completely in both tiers: n in [-70000,70000] x 12 (format, documented spelling) pairs x 8 integer types; all token "
                        "lists of <=5 tokens over the 10-token grammar x all subsets of read groups; all command-line strings up to "
                        "length 5/6 over a 7-letter alphabet that lie in the unambiguous shell subset.  Boundary/float/random parts are not.",
     "assumptions": ASSUME_COMMON + [
